@@ -7,4 +7,5 @@ pub mod util;
 pub mod walk;
 
 pub mod c01;
+pub mod c04;
 pub mod c13;
